@@ -267,10 +267,9 @@ class SimPool:
     def _run(self, task: _Task):
         sched = current()
         func, args, kwds = pickle.loads(task.blob)
-        # the body is the real function on the unpickled copy, schedule seams off inside it:
-        # a worker is a separate process, whatever it iterates is not the parent's schedule
+        # the body is the real function on the unpickled copy; a forked worker shares the parent's
+        # hash seed, so set-iteration decisions inside the body stay under the same scheduler
         was_enabled = sched.enabled
-        sched.enabled = False
         try:
             value = func(*args, **kwds)
             task.is_error = False
